@@ -115,8 +115,9 @@ fn json_str(s: String) -> String {
     o
 }
 
+fn deep() -> bool { std::env::var("VERIF_TIER").map(|t| t == "thorough").unwrap_or(false) } // thorough tier: wider bounds
 fn main() {
-    let n: u64 = std::env::args().nth(1).and_then(|s| s.parse().ok()).unwrap_or(200_000);
+    let n: u64 = std::env::args().nth(1).and_then(|s| s.parse().ok()).unwrap_or(if deep() { 1_500_000 } else { 200_000 });
     let seed: u64 = std::env::var("VERIF_SEED").ok().and_then(|s| s.trim().parse().ok()).unwrap_or(0);
     panic::set_hook(Box::new(|_| {}));
     // xorshift needs a non-zero state
